@@ -165,7 +165,9 @@ CLAIMS = {
    text="NOT a proof-level claim for the whole property. Proved (Lean, all inputs): S2 - the UV mesh is defined for every "
         "legitimate input and returns unit vectors; its steps are <= the resolution (from the integer ceilings); every "
         "direction of the sphere has a mesh vector within chord (r.pi/180)/sqrt 2 (both hemispheres, offset 0, all r > 0 "
-        "without pole-duplicate removal, r >= 0.002 deg with it; removal loses no vector); cube meshes return unit vectors, "
+        "without pole-duplicate removal, r >= 0.002 deg with it; removal loses no vector); for every hemisphere and every offset in "
+        "[0,1) every mesh vector lies in the requested closed hemisphere and (grid with its pole duplicates) every direction of "
+        "it has a mesh vector within squared chord 5/4 (r.pi/180)^2; cube meshes return unit vectors, "
         "24 steps^2 + 2 of them; the normalized cube covers the sphere within chord tan(r)/sqrt 2 for 0 < r < 90 deg and "
         "divides by zero at 120 deg (proved, known finding); the equal-area mesh is defined for every r > 0, holds 4D(2D+1) grid "
         "nodes (D = ceil(90/r)) and covers the sphere: every direction v has a mesh vector g with v.g >= cos(pi/(4D)) - 1/(2D) "
@@ -182,7 +184,7 @@ CLAIMS = {
         "cos(r pi/360) sqrt(1 - r/180) (the radial Hopf coordinate is sampled uniformly in sin^2, so the worst-case angle "
         "scales like sqrt r at the poles). NOT proved: the cubochoric grid, the restriction of a grid to a fundamental zone "
         "(grid rotations outside the zone are dropped, so the SO(3) covering does not transfer), and the coverings of the spherified, "
-        "hexagonal, icosahedral and offset/hemisphere UV meshes: those covering radii are measured on every run "
+        "hexagonal and icosahedral meshes and of offset UV meshes after pole-duplicate removal: those covering radii are measured on every run "
         "against method-specific bounds fixed in advance (1.5 r, 2.2 r, 10 sqrt(r); S2 0.9 r, 5.4 sqrt(r)) - hence category "
         "'other'. The model is tied to the code by exact comparison of grid counts and 1e-12 comparison of coordinates on ~54 "
         "awkward resolutions x all options; the proved bounds (UV, equal-area, SO(3) grids) are also evaluated on the "
